@@ -32,7 +32,7 @@ Definition c05_sukf (S : SOps) (sq : nat -> lmx S -> lmx S) (n m s : nat)
   let w := @ut_weights O n alpha beta kappa in
   let h := @h_family O n m kind H G G2 b g in
   let nz : noise O s m := if reduced then @NoiseReduced O s m R else @NoiseFull O s m R in
-  let r := @sukf_correct O n m s w h y nz None (c05_mix S sq n pred) (c05_mix S sq n corr_prev) in
+  let r := @sukf_correct O n m s w h y nz (c05_mix S sq n pred) (c05_mix S sq n corr_prev) in
   let lik := @sukf_likelihood O n m s nz (snd r) in
   ((mix_comps (fst r), mix_weights (fst r)),
    match snd r, lik with
